@@ -47,6 +47,11 @@ def _case(draw):
     if "spring" in mech:
         mech["spring"]["k"] = min(mech["spring"]["k"], 20.0)
         mech["spring"]["d"] = 0.0
+    if "spring" in mech and mech["kind"] == "chain" and draw(st.integers(0, 3)) == 0:
+        # spring and last joint attached at the same body-fixed point (the centre of mass)
+        mech["spring"]["B2"] = [0.0, 0.0, 0.0]
+        mech["spring"]["compliance"] = False
+        mech["joints"][-1]["r_OJ0"] = list(mech["bodies"][-1]["r"])
     for b in mech["bodies"]:
         b["mass"] = max(b["mass"], 0.5)
     return {"mech": mech, "dt": draw(gen.f(4e-3, 8e-3)), "nsteps": draw(st.integers(300, 500)), "T_long": draw(gen.f(8.0, 10.0)),
